@@ -28,6 +28,10 @@ Decided by correspondence ONLY (no model has two execution modes; a fact about X
       rho_list / f.scale (c*f, set_scale) / f.W / y / all (and: other operator objects of equal
       values); the second ADMM's public state after every step = that of the same ADMM built
       alone with a fresh solver (Reattach.v: reattach_spec, idkeyed_refuted).
+  (J) public parameter updates between calls: for every Loss class (directly constructed and
+      rescaled copies) and grad / __call__ / prox: [m(x); set_scale(s); m(x)] compared with a
+      fresh object built with the new scale and with the same sequence under jax.disable_jit();
+      exact histories of calls / set_scale against ParamState.v inside Coq.
 """
 from __future__ import annotations
 
@@ -43,7 +47,7 @@ import numpy as np
 from vf.common import Ctx, Broken, coq_eval_shards, parse_eval_nat_list, qlit, zlit, coq_list, parse_evals
 
 HEADER = """From Coq Require Import List Bool Arith ZArith QArith.
-From SV Require Import C19.Cache C19.TVNorm C19.Loss C19.Random C19.Defaults C19.SharedDefault C19.Reattach.
+From SV Require Import C19.Cache C19.TVNorm C19.Loss C19.Random C19.Defaults C19.SharedDefault C19.Reattach C19.ParamState.
 Import ListNotations.
 Open Scope nat_scope.
 """
@@ -1789,6 +1793,143 @@ def check_reattach(ctx, rng):
 
 
 # =====================================================================================
+# (J) public parameter updates between calls: [m(x); set_scale(s); m(x)]
+# =====================================================================================
+
+def param_catalogue():
+    """name -> mk(scale): a NEW loss with that scale (directly constructed, or a rescaled copy)"""
+    import scico.numpy as snp
+    from scico import loss, linop, functional
+    d1 = _H_D1
+
+    def base(cls, A=True, **kw):
+        def mk(scale):
+            Aop = linop.Diagonal(snp.array(d1)) if A else None
+            return getattr(loss, cls)(y=snp.array(d1 + 0.5), A=Aop, scale=scale, **kw)
+        return mk
+    cat = {
+        "SquaredL2Loss": base("SquaredL2Loss"), "SquaredL2Loss-noA": base("SquaredL2Loss", A=False),
+        "SquaredL2Loss-W": lambda scale: loss.SquaredL2Loss(y=snp.array(d1 + 0.5), A=linop.Diagonal(snp.array(d1)), scale=scale,
+                                                            W=linop.Diagonal(snp.array(d1 + 1.0))),
+        "Loss(f=SquaredL2Norm)": lambda scale: loss.Loss(y=snp.array(d1 + 0.5), f=functional.SquaredL2Norm(), scale=scale),
+        "Loss(f=HuberNorm,A)": lambda scale: loss.Loss(y=snp.array(d1 + 0.5), A=linop.Diagonal(snp.array(d1)),
+                                                       f=functional.HuberNorm(0.7), scale=scale),
+        "PoissonLoss": base("PoissonLoss"), "SquaredL2AbsLoss": base("SquaredL2AbsLoss"),
+        "SquaredL2SquaredAbsLoss": base("SquaredL2SquaredAbsLoss"),
+    }
+    for nm in ("SquaredL2Loss", "PoissonLoss", "Loss(f=SquaredL2Norm)"):
+        cat["copy(2*L):" + nm] = (lambda scale, mk=cat[nm]: 2.0 * mk(scale / 2.0))
+        cat["copy(L/4):" + nm] = (lambda scale, mk=cat[nm]: mk(scale * 4.0) / 4.0)
+    return cat
+
+
+def run_param_mutation(ctx, name, meth, s1, s2, warm):
+    """used: m(x) [and the other methods when warm]; set_scale(s2); m(x).
+    compared with (a) a fresh object built with s2, (b) the same sequence under jax.disable_jit()"""
+    import jax
+    import random as _r
+    mk = param_catalogue()[name]
+    x = dy_array(_r.Random(17), (3, 4), "float64", lo=0, hi=3) + 0.25
+
+    def do(o, v, m=None):
+        m = m or meth
+        return o(v) if m == "__call__" else (o.grad(v) if m == "grad" else o.prox(v, 0.3))
+    if meth == "prox" and not mk(s1).has_prox:
+        return
+
+    def seq():
+        o = mk(s1)
+        first = do(o, x)
+        if warm:
+            for m2 in ("__call__", "grad"):
+                _ = outcome(lambda: do(o, x, m2))
+        o.set_scale(s2)
+        return first, do(o, x)
+    used = outcome(seq)
+
+    def seq_nojit():
+        with jax.disable_jit():
+            return seq()
+    nojit = outcome(seq_nojit)
+    fresh = outcome(lambda: (do(mk(s1), x), do(mk(s2), x)))
+    tol = 1e-12 if meth != "prox" or "noA" in name or "f=" in name else 1e-6     # prox via CG iterations otherwise
+    inp = {"object": name, "method": meth, "scales": [s1, s2], "warm": warm}
+    for mode, other in (("fresh object built with the new scale", fresh), ("same sequence under jax.disable_jit()", nojit)):
+        ctx.count("param-mutation", dict(inp, against=mode))
+        if used[0] == "exc" or other[0] == "exc":
+            ok, why = (used == other), f"{used[0]}:{used[1] if used[0] == 'exc' else ''} vs {other[0]}:{other[1] if other[0] == 'exc' else ''}"
+            idx = 1
+        else:
+            for idx in (0, 1):
+                ok, why = close(used[1][idx], other[1][idx], tol)
+                if not ok:
+                    break
+        if not ok:
+            ctx.violation(f"param-mutation:{name}.{meth}",
+                          ("result of the call AFTER set_scale" if idx else "result of the FIRST call")
+                          + " differs from the " + mode,
+                          dict(inp, against=mode), expected=mode, observed=why,
+                          oracle="ParamState.v real_result_function_of_current_state")
+            return
+
+
+def run_ps_impl(case):
+    """exact observation: probe with 2 (x - y) = 1 and ||x - y||^2 = 1, so value = gradient entry = scale"""
+    import scico.numpy as snp
+    from scico import loss, functional, linop
+    x = snp.array(np.array([1.0, -2.0, 0.5, 3.0]))
+    y = x - 0.5
+    if case["kind"] == "SquaredL2Loss":
+        o = loss.SquaredL2Loss(y=y, A=linop.Identity((4,), input_dtype=np.float64), scale=case["s0"])
+    elif case["kind"] == "Loss":
+        o = loss.Loss(y=y, f=functional.SquaredL2Norm(), scale=case["s0"])
+    else:
+        o = 2.0 * loss.SquaredL2Loss(y=y, scale=case["s0"] / 2.0)
+    obs = []
+    for code, v in case["ops"]:
+        if code == 0:
+            g = np.asarray(o.grad(x))
+            obs.append(float(g[0]) if np.all(g == g[0]) else float("nan"))
+        elif code == 1:
+            obs.append(float(o(x)))
+        else:
+            o.set_scale(v)
+    if any(t != t for t in obs):
+        raise Broken("loss gradient is not constant on the probe point", str(obs))
+    return obs
+
+
+def check_param_mutation(ctx, rng):
+    cat = param_catalogue()
+    for name in sorted(cat):
+        for meth in ("grad", "__call__", "prox"):
+            if ctx.quick and meth != "grad" and rng.random() < 0.5:
+                continue
+            s1, s2 = rng.choice([(0.5, 2.0), (1.0, 0.25), (2.0, 3.0)])
+            r = outcome(lambda: run_param_mutation(ctx, name, meth, s1, s2, rng.random() < 0.5))
+            if r[0] == "exc":
+                ctx.obligation(False, f"parameter-update scenario {name}.{meth} could not be executed", r[1])
+    items, meta = [], []
+    for _ in range(ctx.n(20, 300)):
+        ops = []
+        for _ in range(rng.randint(3, 8)):
+            c = rng.choice([0, 0, 1, 2])
+            ops.append([c, rng.choice(LOSS_C) if c == 2 else 0])
+        case = {"kind": rng.choice(["SquaredL2Loss", "Loss", "copy"]), "s0": rng.choice([0.5, 1.0, 2.0, 0.25]), "ops": ops}
+        obs = run_ps_impl(case)
+        ctx.count("param-history", case)
+        items.append(f"({qlit(case['s0'])}, " + coq_list([f"({c}, {qlit(v)})" for c, v in ops]) + ", "
+                     + coq_list([qlit(v) for v in obs]) + ")")
+        meta.append((case, obs))
+    body = "Definition cases := " + coq_list(items, ";\n ") + ".\nEval vm_compute in (TVNorm.bad_idx ps_case_ok cases 0%nat)."
+    for idx in parse_eval_nat_list(coq_eval_shards("C19_ps", HEADER, [body])[0]):
+        case, obs = meta[idx]
+        ctx.violation("param-history", "values / gradients of a loss along a history of calls and set_scale updates are not those "
+                      "of the current scale", case, expected="ParamState.v run_real (scale at the time of each call)",
+                      observed=obs, oracle="ps_case_ok")
+
+
+# =====================================================================================
 # run / replay
 # =====================================================================================
 
@@ -1999,6 +2140,8 @@ def run(ctx: Ctx):
     mark("H-interleaved")
     check_reattach(ctx, rng)
     mark("I-reattach")
+    check_param_mutation(ctx, rng)
+    mark("J-param-updates")
     ctx.notes.append("wall seconds per stream: " + ", ".join(f"{b[0]} {b[1] - a[1]:.1f}" for a, b in zip(marks, marks[1:])))
 
     # shared mutable defaults of the whole library are what they were at the start
@@ -2038,6 +2181,16 @@ def replay(ctx: Ctx, rec):
         c2.known = []
         run_reattach(c2, c["solver"], c["variant"], c.get("steps", 2))
         return not c2.violations and not c2.broken
+    if unit.startswith("param-mutation:"):
+        c2 = Ctx(ctx.pid, ctx.tier, ctx.seed)
+        c2.known = []
+        run_param_mutation(c2, c["object"], c["method"], c["scales"][0], c["scales"][1], c["warm"])
+        return not c2.violations
+    if unit == "param-history":
+        obs = run_ps_impl(c)
+        body = ("Definition cases := [(" + qlit(c["s0"]) + ", " + coq_list([f"({a}, {qlit(v)})" for a, v in c["ops"]]) + ", "
+                + coq_list([qlit(v) for v in obs]) + ")].\nEval vm_compute in (TVNorm.bad_idx ps_case_ok cases 0%nat).")
+        return parse_eval_nat_list(coq_eval_shards("C19_replay", HEADER, [body])[0]) == []
     if unit == "default-helper-content":
         obs = run_hc_impl(c)
         body = ("Definition cases := [(" + zl(100) + ", " + coq_list([f"({a}, {i}, {zl(v)})" for a, i, v in c["ops"]]) + ", "
